@@ -5,6 +5,7 @@ cd "$(dirname "$0")"
 export CARGO_NET_OFFLINE=true
 cargo build --offline --release --manifest-path harness/Cargo.toml --target-dir .build/release
 cargo build --offline --profile checked --manifest-path harness/Cargo.toml --target-dir .build/checked
+cargo build --offline --profile unopt --manifest-path harness/Cargo.toml --target-dir .build/unopt
 cargo build --offline --release --manifest-path /repo/Cargo.toml --target-dir .build/cli
 # getenv interposer used by the configuration shards
 cc -shared -fPIC -O1 -o .build/envshim.so tools/envshim.c -ldl || true
